@@ -235,11 +235,11 @@ def validate_trace(cwd, module, cfg, trace_path, env=None, chunks=None, max_reje
     if cur:
         groups.append(cur)
     result = dict(events=len(lines), histories=len(hs), accepted_events=0, rejected=[], tlc_states=0, tlc_generated=0,
-                  tlc_wall=0.0, reports=[], tlc_runs=0)
+                  tlc_wall=0.0, reports=[], tlc_runs=0, unvalidated=[])
 
     def work(gi):
         group = list(groups[gi])
-        rej, acc, states, gen, reports, runs = [], 0, 0, 0, [], 0
+        rej, acc, states, gen, reports, runs, unval = [], 0, 0, 0, [], 0, []
         sub = os.path.join(cwd, "chunk%d" % gi)
         stage_dir(cwd, sub)
         def globalise(reps, grp):
@@ -280,6 +280,7 @@ def validate_trace(cwd, module, cfg, trace_path, env=None, chunks=None, max_reje
             rej.append(dict(history_start=h[0], event_index=h[0] + (consumed - pos), event=h[1][consumed - pos],
                             history=h[1], tlc_tail=r.out[-1500:]))
             if len(rej) >= max_rejects:
+                unval = [hh[0] for hh in group[k + 1:]]      # not examined: neither accepted nor refused
                 break
             # validate the prefix again is unnecessary (already matched); continue with the rest
             prefix = group[:k]
@@ -289,11 +290,12 @@ def validate_trace(cwd, module, cfg, trace_path, env=None, chunks=None, max_reje
                 runs += 1
                 reports += globalise(rp.printed("REPORT"), prefix)
             group = group[k + 1:]
-        return rej, acc, states, gen, reports, runs
+        return rej, acc, states, gen, reports, runs, unval
 
     t0 = time.time()
     with concurrent.futures.ThreadPoolExecutor(max_workers=min(len(groups), NCPU)) as ex:
-        for rej, acc, states, gen, reports, runs in ex.map(work, range(len(groups))):
+        for rej, acc, states, gen, reports, runs, unval in ex.map(work, range(len(groups))):
+            result["unvalidated"] += unval
             result["rejected"] += rej
             result["accepted_events"] += acc
             result["tlc_states"] += states
